@@ -4,7 +4,6 @@ import (
 	"flag"
 	"fmt"
 	"os"
-	"path/filepath"
 	"runtime/debug"
 	"runtime/pprof"
 	"sort"
@@ -19,24 +18,7 @@ import (
 const repoDir = "/repo"
 
 func harnessOverlay(verifDir string) map[string][]byte {
-	ov := map[string][]byte{}
-	add := func(srcDir, dstDir string) {
-		files, _ := filepath.Glob(filepath.Join(srcDir, "*.go"))
-		for _, f := range files {
-			base := filepath.Base(f)
-			if strings.HasSuffix(base, "_test.go") || strings.HasSuffix(base, "_native.go") {
-				continue
-			}
-			b, err := os.ReadFile(f)
-			if err != nil {
-				panic(err)
-			}
-			ov[filepath.Join(dstDir, "zz_verif_"+base)] = b
-		}
-	}
-	add(filepath.Join(verifDir, "harness/commonmark"), repoDir)
-	add(filepath.Join(verifDir, "harness/format"), filepath.Join(repoDir, "format"))
-	return ov
+	return harnessFiles(verifDir, "sym")
 }
 
 func loadProgram(verifDir string) *symgo.Program {
@@ -59,6 +41,8 @@ func main() {
 	switch os.Args[1] {
 	case "explore":
 		cmdExplore(os.Args[2:])
+	case "run":
+		cmdRun(os.Args[2:])
 	default:
 		fmt.Fprintln(os.Stderr, "unknown command")
 		os.Exit(2)
